@@ -48,7 +48,7 @@ PROPS = {
     },
     "C04": {
         "level": "other",
-        "owns": ["C04", "C10", "C11", "C12", "C01"],
+        "owns": ["C04", "C10", "C11", "C12", "C01", "C15"],
         "explanation": ("Cluster-level statement is not solver-decidable here (multi-instance BMC out of reach). Decided: every link of the "
                         "refutation chain as a step obligation on one real instance for all values within the bounds: loss is silent and a "
                         "failed round only suspects (t_probe), the suspect refutes with a higher incarnation in every datagram of the step "
@@ -60,7 +60,7 @@ PROPS = {
         "harnesses": [
             H("c11_timeout_iff", cost=40), H("t_probe_k2", cost=60), H("d_ack", cost=70), H("d_fwd_ack", cost=105),
             H("a_apply1_k1", cost=120), H("t_indirect_k2", cost=70),
-            H("d_ping_upd", tier=T, cost=400), H("d_gossip_upd", tier=T, cost=300), H("t_probe_k3", tier=T, cost=120),
+            H("d_ping_upd", tier=T, cost=900, timeout_t=3600, mem_gb=44), H("d_gossip_upd", tier=T, cost=900, timeout_t=3600, mem_gb=44), H("t_probe_k3", tier=T, cost=120),
         ],
     },
     "C06": {
@@ -71,9 +71,9 @@ PROPS = {
         "harnesses": [
             H("c06_set_config_grow", cost=60), H("c06_set_config_shrink", cost=60), H("c06_fuzz_feed_2", cost=120),
             H("c06_fuzz_broadcast_5", cost=120), H("d_ping", cost=80), H("t_probe_k2", cost=60),
-            H("c06_config_new_lan", cost=10, **CD), H("c06_config_new_wan", cost=10, **CD),
+            H("c06_config_new_lan", cost=10, **CD), H("c06_config_new_wan", cost=10, **CD), H("bc_fill_prefix_1", cost=120, **BC),
             H("c06_set_config_same", tier=T), H("c06_set_config_gossip", tier=T, cost=600, timeout_t=3000), H("c06_fuzz_gossip_7", tier=T, cost=900, timeout_t=3600), H("c06_fuzz_gossip_9", tier=T, cost=900, timeout_t=3600), H("c06_fuzz_ping_7", tier=T, cost=900, timeout_t=3600),
-            H("c06_fuzz_turnundead_3", tier=T, cost=300), H("a_apply1_k2", tier=T, cost=220), H("d_turn_undead", tier=T, cost=300),
+            H("c06_fuzz_turnundead_3", tier=T, cost=300), H("a_apply1_k2", tier=T, cost=220), H("d_turn_undead_never", tier=T, cost=200), H("d_turn_undead_next", tier=T, cost=600, timeout_t=3000),
             H("a_leave", tier=T), H("a_change_identity", tier=T), H("t_indirect_k2", tier=T), H("t_announce_down", tier=T, cost=120),
             H("c07_send_pb_9", tier=T), H("c07_send_feed_failing", tier=T, cost=600, timeout_t=3000),
         ],
@@ -89,7 +89,7 @@ PROPS = {
             H("c07_send_pb_9", tier=T), H("c07_send_pb_10", tier=T), H("c07_send_pb_13", tier=T), H("c07_send_pb_16", tier=T), H("c07_send_pb_21", tier=T),
             H("c07_send_pb_27", tier=T, cost=200), H("c07_send_pb_32", tier=T, cost=300), H("c07_send_feed_12", tier=T), H("c07_send_feed_22", tier=T, cost=200),
             H("c07_send_feed_32", tier=T, cost=300), H("c07_send_feed_failing", tier=T, cost=600, timeout_t=3000), H("c07_send_bare_32", tier=T),
-            H("c07_send_bcast_14", tier=T), H("c07_send_bcast_32", tier=T), H("d_gossip_custom", tier=T), H("d_announce", tier=T, cost=300),
+            H("c07_send_bcast_14", tier=T), H("c07_send_bcast_32", tier=T), H("d_gossip_custom", tier=T), H("d_announce", tier=T, cost=500, timeout_t=3000),
             H("c17_announce_payload", tier=T),
         ],
     },
@@ -98,7 +98,7 @@ PROPS = {
         "harnesses": [
             H("a_apply1_k1", cost=120), H("c11_timeout_iff", cost=40), H("d_ping", cost=80), H("a_leave", cost=40), H("a_change_identity", cost=50),
             H("c08_accumulating_runtime", cost=60),
-            H("d_turn_undead", tier=T, cost=300), H("a_apply1_k2", tier=T, cost=220), H("a_apply1_k3", tier=T, cost=400), H("d_gossip_upd", tier=T, cost=300),
+            H("d_turn_undead_never", tier=T, cost=200), H("d_turn_undead_next", tier=T, cost=600, timeout_t=3000), H("a_apply1_k2", tier=T, cost=220), H("a_apply1_k3", tier=T, cost=400), H("d_gossip_upd", tier=T, cost=900, timeout_t=3600, mem_gb=44),
             H("t_remove", tier=T), H("a_reuse", tier=T), H("c01_monotone", tier=T),
         ],
     },
@@ -106,14 +106,14 @@ PROPS = {
         "level": "model_checking", "bounds": BOUNDS_E1, "outside": "change_identity to another member's address (identity changes keep the address: the renew contract); " + OUT_E1, "assumptions": [STUBS],
         "harnesses": [
             H("a_apply1_k1", cost=120), H("d_ping", cost=80), H("t_remove", cost=70), H("c01_monotone", cost=15), H("c01_frame", cost=100), H("d_broadcast_custom", cost=65),
-            H("a_apply1_k2", tier=T, cost=220), H("d_gossip_upd", tier=T, cost=300), H("d_ping_upd", tier=T, cost=400), H("c06_fuzz_gossip_7", tier=T, cost=120), H("a_change_identity", tier=T),
+            H("a_apply1_k2", tier=T, cost=220), H("d_gossip_upd", tier=T, cost=900, timeout_t=3600, mem_gb=44), H("d_ping_upd", tier=T, cost=900, timeout_t=3600, mem_gb=44), H("c06_fuzz_gossip_7", tier=T, cost=120), H("a_change_identity", tier=T),
         ],
     },
     "C10": {
         "level": "model_checking", "bounds": BOUNDS_E1 + "; renew() yielding next / same / losing / no identity", "outside": OUT_E1, "assumptions": [STUBS],
         "harnesses": [
             H("a_apply1_k1", cost=120), H("a_change_identity", cost=50), H("a_reuse", cost=12), H("a_leave", cost=40), H("c01_monotone", cost=15),
-            H("d_turn_undead", tier=T, cost=300), H("d_gossip_upd", tier=T, cost=300), H("d_ping_upd", tier=T, cost=400), H("a_apply1_k2", tier=T, cost=220),
+            H("d_turn_undead_never", tier=T, cost=200), H("d_turn_undead_next", tier=T, cost=600, timeout_t=3000), H("d_gossip_upd", tier=T, cost=900, timeout_t=3600, mem_gb=44), H("d_ping_upd", tier=T, cost=900, timeout_t=3600, mem_gb=44), H("a_apply1_k2", tier=T, cost=220),
         ],
     },
     "C11": {
@@ -122,7 +122,7 @@ PROPS = {
         "harnesses": [
             H("c11_timeout_iff", cost=40, entry="Foca::handle_timer(ChangeSuspectToDown)"), H("t_remove", cost=70, entry="Foca::handle_timer(RemoveDown)"),
             H("a_apply1_k1", cost=120), H("d_ping", cost=80),
-            H("c11_timeout_iff_k3", tier=T, cost=120), H("a_apply1_k2", tier=T, cost=220), H("d_gossip_upd", tier=T, cost=300),
+            H("c11_timeout_iff_k3", tier=T, cost=120), H("a_apply1_k2", tier=T, cost=220), H("d_gossip_upd", tier=T, cost=900, timeout_t=3600, mem_gb=44),
         ],
     },
     "C12": {
@@ -140,7 +140,7 @@ PROPS = {
             H("c13_stale_probe", cost=30), H("c13_stale_suspect", cost=45), H("c13_stale_gossip", cost=30), H("t_probe_k2", cost=60), H("t_announce", cost=65),
             H("c06_set_config_same", cost=60), H("a_apply1_k1", cost=120),
             H("c13_stale_indirect", tier=T, cost=100), H("c13_stale_announce", tier=T, cost=85), H("c13_stale_announce_down", tier=T, cost=95), H("t_gossip", tier=T, cost=200),
-            H("t_announce_down", tier=T, cost=120), H("a_leave", tier=T), H("a_change_identity", tier=T), H("a_reuse", tier=T), H("d_turn_undead", tier=T, cost=300),
+            H("t_announce_down", tier=T, cost=120), H("a_leave", tier=T), H("a_change_identity", tier=T), H("a_reuse", tier=T), H("d_turn_undead_never", tier=T, cost=200), H("d_turn_undead_next", tier=T, cost=600, timeout_t=3000),
             H("c11_timeout_iff", tier=T), H("t_indirect_k2", tier=T),
         ],
     },
@@ -182,9 +182,9 @@ PROPS = {
         "outside": "scratch buffers (updates_buf/choice_buf/send_buf contents) are not compared: every obligation starts from empty scratch and foca clears them before use; determinism rests on safe Rust without statics/clocks (checked structurally by bin/check) plus full-state equality here",
         "assumptions": [STUBS],
         "harnesses": [
-            H("c17_oversize", cost=20), H("c17_bad_header", cost=30), H("c17_bad_member", cost=40), H("c17_trailing_byte", cost=30), H("d_ping", cost=80),
+            H("c17_oversize", cost=20), H("c17_bad_header_5", cost=30), H("c17_bad_header_tag11", cost=30), H("c17_bad_member_state", cost=40), H("c17_bad_member_count", cost=40), H("c17_trailing_byte", cost=30), H("d_ping", cost=80),
             H("a_reuse", cost=12), H("c16_add_broadcast", cost=40),
-            H("a_change_identity", tier=T), H("c06_set_config_same", tier=T), H("c17_announce_payload", tier=T), H("c13_stale_probe", tier=T), H("d_gossip", tier=T), H("a_announce", tier=T),
+            H("a_change_identity", tier=T), H("c06_set_config_same", tier=T), H("c17_announce_payload", tier=T), H("c17_bad_header_0", tier=T), H("c17_bad_header_9", tier=T), H("c17_bad_header_tag255", tier=T), H("c17_bad_member_trunc", tier=T), H("c17_bad_member_state255", tier=T), H("c13_stale_probe", tier=T), H("d_gossip", tier=T), H("a_announce", tier=T),
         ],
     },
     "C18": {
@@ -195,16 +195,17 @@ PROPS = {
                         "answered with a TurnUndead only by an instance that renewed its identity in that step. The composition is the prose argument of DESIGN §4 C18."),
         "bounds": BOUNDS_E1, "outside": "the composition over several instances; " + OUT_E1, "assumptions": [STUBS],
         "harnesses": [
-            H("d_turn_undead", cost=300, timeout_q=900), H("d_ping", cost=80), H("d_ack", cost=70), H("d_gossip", cost=75), H("d_pingreq", cost=80), H("d_announce", cost=300, timeout_q=900),
-            H("d_indirect_ping", tier=T), H("d_indirect_ack", tier=T), H("d_fwd_ack", tier=T, cost=105), H("d_feed", tier=T), H("d_broadcast", tier=T), H("d_gossip_upd", tier=T, cost=300),
-            H("d_ping_upd", tier=T, cost=400), H("c06_fuzz_gossip_7", tier=T, cost=120), H("d_turn_undead_k2", tier=T, cost=900, timeout_t=3000),
+            H("d_turn_undead_never", cost=200, timeout_q=900), H("d_ping", cost=80), H("d_ack", cost=70), H("d_gossip", cost=75), H("d_pingreq", cost=80),
+            H("d_turn_undead_next", tier=T, cost=600, timeout_t=3000), H("d_turn_undead", tier=T, cost=900, timeout_t=3600, mem_gb=40), H("d_announce", tier=T, cost=500, timeout_t=3000), H("d_announce_32", tier=T, cost=900, timeout_t=3600, mem_gb=40),
+            H("d_indirect_ping", tier=T), H("d_indirect_ack", tier=T), H("d_fwd_ack", tier=T, cost=105), H("d_feed", tier=T), H("d_broadcast", tier=T), H("d_gossip_upd", tier=T, cost=900, timeout_t=3600, mem_gb=44),
+            H("d_ping_upd", tier=T, cost=900, timeout_t=3600, mem_gb=44), H("c06_fuzz_gossip_7", tier=T, cost=120), H("d_turn_undead_k2", tier=T, cost=900, timeout_t=3000),
         ],
     },
     "C19": {
         "level": "model_checking", "bounds": BOUNDS_E1 + "; Down records bearing the instance's own address (older and newer generations) allowed by Inv", "outside": OUT_E1, "assumptions": [STUBS],
         "harnesses": [
-            H("t_announce_down", cost=120), H("t_announce", cost=65), H("t_probe_k2", cost=60), H("t_indirect_k2", cost=70), H("d_ping", cost=80), H("a_gossip", cost=90),
-            H("t_gossip", tier=T, cost=200), H("d_announce", tier=T, cost=300), H("d_turn_undead", tier=T, cost=300), H("a_leave", tier=T), H("a_change_identity", tier=T),
+            H("t_announce_down", cost=120), H("t_announce", cost=65), H("t_probe_k2", cost=60), H("t_indirect_k2", cost=70), H("d_ping", cost=80), H("a_gossip", cost=90), H("a_apply1_k1", cost=120),
+            H("t_gossip", tier=T, cost=200), H("d_announce", tier=T, cost=500, timeout_t=3000), H("d_turn_undead_never", tier=T, cost=200), H("d_turn_undead_next", tier=T, cost=600, timeout_t=3000), H("a_leave", tier=T), H("a_change_identity", tier=T),
             H("c16_broadcast_one", tier=T, cost=120), H("a_apply1_k2", tier=T, cost=220), H("c11_timeout_iff", tier=T),
         ],
     },
@@ -223,10 +224,11 @@ PROPS = {
     },
 }
 
-DEV = ["c07_send_feed_17","c07_send_pb_17","c07_send_bare_10","c07_send_bcast_15","c07_send_pb_22","c07_send_feed_failing"]
+DEV = ["c17_bad_member_state","d_gossip_upd","d_ping","c17_bad_member_count"]
 PROPS["DEV"] = {"level": "model_checking", "harnesses": [H(n) for n in DEV]}
 
 HOOK_COMMITS = ["2dd5aa0"]
+FIX_COMMITS = ["abe7c6a", "5436701", "e6d4c29", "8791f91"]
 
 _MULTI = ("whole-cluster, many-period schedule property with no closed chain of local step obligations; multi-instance bounded "
           "model checking of the real code measured out of reach (2 instances x 6 deliveries: > 20 min in symbolic execution, > 17 GB)")
